@@ -22,6 +22,10 @@ import FGVerif.Proofs.C13Relabel
   * `C13.replace_wf`, `C13.replace_contiguous`  the result is again a well-formed graph on contiguous
       ids (so the step iterates: C14)
   * `C13.compose_incident_order`  the incident order after the composition step is `incSpec`
+  * `C13.replace_exact_any`, … (Proofs/C13Any.lean)  the same theorems on the FULL domain `inDomainAny`: parent ids
+      `0..n-1` (and sub-pattern ids `0..m-1`) in ANY node order — every clause of `Spec` holds verbatim; only
+      `replace_contiguous` (ids in node order) needs an ordered parent, on the full domain the ids of the
+      result are `0..n+m-2` in the inherited order (`replace_contiguousAny`, `replace_ids_perm`)
   * `C13.relabel_exact`, `C13.relabel_spec`, `C13.relabelSpecCheck_sound`, `C13.rank_lt` (Proofs/C13Relabel.lean)
       `relabel_graph` renumbers order-preservingly onto `offset, offset+1, …` and keeps attributes and bonds
 -/
